@@ -476,8 +476,18 @@ func (h *hist) rewrite(r *rand.Rand, k kindDef, own bool, big bool) {
 	if !s.write(jm) || !s.write(jm) { // twice as it is
 		return
 	}
-	// every exported field, by assignment (twice: away from the first value and on to a third)
 	fs := fieldsOf(main.p)
+	// a change that certainly is one
+	for _, f := range fs {
+		if f.kind == "i" {
+			f := f
+			if !step1(mutator{how: "assign", fs: []string{f.name}, apply: func() { f.v.SetInt(trunc(f.v.Int()+1, f.v.Type().Bits())) }}) {
+				return
+			}
+			break
+		}
+	}
+	// every exported field, by assignment (twice: away from the first value and on to a third)
 	order := append(r.Perm(len(fs)), r.Perm(len(fs))...)
 	for n, i := range order {
 		f := fs[i]
@@ -713,6 +723,7 @@ func (h *hist) packreuse(r *rand.Rand, which int, rounds int) {
 	default:
 		recvE = pack.NewErrorSnapPack1()
 	}
+	var src interface{}
 	for round := 0; round < rounds; round++ {
 		if round > 0 {
 			s.another()
@@ -724,9 +735,22 @@ func (h *hist) packreuse(r *rand.Rand, which int, rounds int) {
 			stepItems = append(stepItems, it)
 			steps = append(steps, it.p.(step.Step))
 		}
-		var src interface{}
 		var tx *item
-		if msg := core.Guard(func() { src = car.hold(r, steps) }); msg != "" {
+		// the sending side: a new pack per round, or (every other history) ONE pack whose profile is set again
+		if msg := core.Guard(func() {
+			if src == nil || h.cas/len(carriers)%2 == 0 {
+				src = car.hold(r, steps)
+				return
+			}
+			switch p := src.(type) {
+			case *pack.ProfilePack:
+				p.SetProfile(steps)
+			case *pack.ProfileStepSplitPack:
+				p.SetProfile(steps)
+			case *pack.ErrorSnapPack1:
+				p.SetProfile(steps)
+			}
+		}); msg != "" {
 			s.panicEv("SetProfile "+car.name, msg, nil)
 			return
 		}
